@@ -352,3 +352,27 @@ PROPS["C12"] = dict(
         assumptions=_E1_ASSUME + ["std::random_device is not interposed (it reads the kernel's entropy source, not a clock)"],
     ),
 )
+
+PROPS["C17"] = dict(
+    level="model_checking",
+    budget_s=dict(quick=150, thorough=1500),
+    parts=[dict(name="slices_and_views", bin="C17", flavour="plain")],
+    manifest=dict(
+        engine="E2", design_ref="5 / C17",
+        technique="exhaustive grids: (a) array configuration x start/end vectors of every length x candidates on/beside/between/outside the coordinates x modes against a linear-scan reference; (b) every DataView window x every request (and all write->read request pairs) against a cell model of the underlying array",
+        text="(a) dataSlice on arrays of rank 1-3 over 20 descriptors (all kind pairs/triples), start/end of every length 0..rank+1, full candidate products on rank 1 and reduced "
+             "sets on rank 2-3, Inclusive / Exclusive / default, with and without units equal to the dimension's; extent and full content compared with the reference, or an exception "
+             "expected. (b) DataView on 3x4 and 2x3x2: every window incl. illegal ones, every request (count 0..w+1, offset 0..w, omitted offset, wrong rank) through raw and typed "
+             "getData/setData, and for 3x4 all write-then-read pairs; the whole array is compared with the model after every operation and rejected requests must leave array and "
+             "(sentinel-filled) buffer untouched.",
+        note="Exclusive slices with start == end exactly on a coordinate return that element: the repository's test suite pins it (BaseTestDataAccess.cpp:760), so it is a listed known "
+             "finding rather than a fix. Zero-count requests are only asserted to transfer nothing."),
+    evidence=dict(
+        keys=dict(states=("distinct", "outcomes"), transitions=("sum", [("count", "view_reads"), ("count", "view_writes")]), traces_validated_against_impl=("count", "view_pairs"),
+                  evaluations=("sum", [("count", "slices"), ("count", "view_reads"), ("count", "view_writes"), ("count", "constructions")]), distinct_nontrivial=("distinct", "outcomes")),
+        rule="(a) grid of array configurations x modes x start/end tuples vs linear-scan reference over library-reported coordinates; (b) every window x every request, whole-array "
+             "compare with the model after every operation; distinct_nontrivial = distinct (axis kinds, length, mode, expected class, outcome) and (rank, call site, request class, outcome) tuples.",
+        bound=dict(quick="rank 1: 20 descriptors x extents {1,2,5}; rank 2: 16 kind pairs; rank 3: 64 triples x 5 pairs per axis; views: all windows, pairs on small windows", thorough="all extents 1..5, parameter picks, 8 pairs per axis; all write->read pairs on all 60 windows"),
+        assumptions=["doubles compared exactly", "axis coordinates are those the library reports"],
+    ),
+)
